@@ -8,7 +8,7 @@
    Hand-written here (and tied by the correspondence on every run): the order of the emitted
    statements (extra-key check first, then the fields in definition order), `d.get`, the
    MISSING fall-through between the reads of one field, MissingField for a field without
-   default, and the fact that a class without init fields emits nothing of this. *)
+   default. *)
 From Coq Require Import List String Ascii ZArith Bool.
 From Verif Require Import Regex PyK PyK_alias KeyModel.
 From VerifGen Require Import K4.
@@ -103,17 +103,13 @@ Definition impl_forbidden (allowed: kv) (d: dict) : list key :=
 
 Definition impl_from_dict (c: cls) (d: dict) : res outcome :=
   ff <- impl_filtered c (c_fields c) ;;
-  match ff with
-  | [] => Ok (OInst [])                      (* `if filtered_fields:` -- nothing is emitted *)
-  | _ :: _ =>
-      if c_forbid c then
-        al <- allowed_keys (enc_discr (c_discr c)) (KBool (c_allow c)) (enc_filtered ff) ;;
-        match impl_forbidden al d with
-        | (_ :: _) as ks => Ok (OExtra ks)
-        | [] => impl_fields c d ff
-        end
-      else impl_fields c d ff
-  end.
+  if c_forbid c then
+    al <- allowed_keys (enc_discr (c_discr c)) (KBool (c_allow c)) (enc_filtered ff) ;;
+    match impl_forbidden al d with
+    | (_ :: _) as ks => Ok (OExtra ks)
+    | [] => impl_fields c d ff
+    end
+  else impl_fields c d ff.
 
 Definition res_outcome_eqb (r: res outcome) (o: outcome) : bool :=
   match r with Ok x => outcome_eqb x o | Raise _ => false end.
